@@ -58,8 +58,10 @@ func GenProgram(b Bias) *rapid.Generator[Program] {
 			CtxFlavor: rapid.SampledFrom([]int{CtxPlain, CtxPlain, CtxCause, CtxChild, CtxForeign}).Draw(t, "ctxFlavor"),
 		}
 		p.Sibling = rapid.IntRange(0, 5).Draw(t, "siblingLaneOnTheSameContext") == 0
+		// a goroutine that sits in Wait() from the start (main, waiting for the lane it has just created) is ordinary use
+		// whatever else the program does
+		p.EarlyWaiter = rapid.IntRange(0, 4).Draw(t, "earlyWaiter") == 0
 		if b.Cancel {
-			p.EarlyWaiter = rapid.IntRange(0, 4).Draw(t, "earlyWaiter") == 0
 			p.Abrupt = rapid.IntRange(0, 9).Draw(t, "abrupt") == 0
 			p.BornDone = rapid.IntRange(0, 14).Draw(t, "bornDone") == 0
 		}
